@@ -711,8 +711,22 @@ fn run(cfg: &Cfg, fx: &Fixture, hist: &[Vec<usize>]) -> Result<RunOut, RunErr> {
                 }
                 msgs[s] = Some(v);
             }
+            // A party may put its round message on the wire at any moment before the first delivery of it, i.e. also AFTER
+            // messages of the same round have reached it: the message is produced again, as late as the history allows, and
+            // that is what gets delivered (for a party whose message is a function of its own state the bytes are the same;
+            // seeded change C18-I folded received shares into the value `send` serialises).
+            let mut late = vec![false; n];
             for &e in &hist[r] {
                 let (s, rcv) = edges[e];
+                if !late[s] {
+                    late[s] = true;
+                    let mut v = vec![];
+                    match guard(|| objs[s].as_ref().unwrap().send(&mut v)) {
+                        Ok(Ok(())) => msgs[s] = Some(v),
+                        Ok(Err(e)) => return Err(RunErr::Fail(mkfail(cfg, "send:io-error", format!("party {s} can serialise its round-{r} message after receiving"), e.to_string()))),
+                        Err(e) => return Err(RunErr::Fail(mkfail(cfg, &format!("send:panic:{}", panic_class(&e)), format!("party {s} can serialise its round-{r} message after receiving"), e))),
+                    }
+                }
                 let bytes = msgs[s].as_ref().unwrap();
                 match guard(|| objs[rcv].as_mut().unwrap().receive(s, bytes)) {
                     Ok(Ok(left)) => leftover = leftover.max(left),
@@ -2484,8 +2498,19 @@ fn run_step(cfg: &Cfg, fx: &Fixture, proto: Proto, parties: &mut [Participant], 
         if rev.get(lr).copied().unwrap_or(false) {
             ord.reverse();
         }
+        let mut late = vec![false; n];
         for e in ord {
             let (s, rcv) = edges[e];
+            if !late[s] {
+                // sent as late as the order allows (see `run`)
+                late[s] = true;
+                let mut v = vec![];
+                match guard(|| objs[s].send(&mut v)) {
+                    Ok(Ok(())) => msgs[s] = Some(v),
+                    Ok(Err(e)) => return Err(mkfail(cfg, "send:io-error", format!("party {s} can serialise its round-{lr} message after receiving"), e.to_string())),
+                    Err(e) => return Err(mkfail(cfg, &format!("send:panic:{}", panic_class(&e)), format!("party {s} can serialise its round-{lr} message after receiving"), e)),
+                }
+            }
             let bytes = msgs[s].as_ref().unwrap();
             match guard(|| objs[rcv].receive(s, bytes)) {
                 Ok(Ok(_)) => {}
